@@ -528,6 +528,15 @@ func (ct *CaseTaint) UnicodeFolds(fn *ssa.Function) []CaseSink {
 		default:
 			return
 		}
+		// EqualFold with a constant word that holds neither k nor s folds nothing but ASCII letters: the only
+		// non-ASCII letters whose simple fold is an ASCII letter are U+212A (k) and U+017F (s)
+		if callee.Name() == "EqualFold" {
+			for _, a := range x.Call.Args {
+				if w, ok := ConstStr(a); ok && !strings.ContainsAny(strings.ToLower(w), "ks") {
+					return
+				}
+			}
+		}
 		for _, a := range x.Call.Args {
 			if raw[a] != "" {
 				out = append(out, CaseSink{fn, in, "", "strings." + callee.Name(), raw[a]})
